@@ -5,7 +5,7 @@
 // caller-supplied event channel; jsonTextValid is the assumed contract of encoding/json (spec/c04.smt2).
 package validator
 
-//@ prelude c04
+//@ prelude c04 c18
 
 //@ func dispatchEvent(event e.Event, eventChan *chan e.Event)
 //@   requires [C11:protocol] eventChan != nil ==> (chanClosed == 0 && ite(evIsStart(event.EventType), !evOpen && evStage(event.EventType) == evNext, evOpen && evCur == evStage(event.EventType)))
@@ -20,6 +20,7 @@ package validator
 //@ func GenerateRego(profileText string, debug bool, eventChan *chan e.Event) (*generator.RegoUnit, error)
 //@   requires [C11:fresh] eventChan != nil ==> (chanClosed == 0 && !evOpen && evNext == 0)
 //@   ensures [C11:stages] eventChan != nil ==> (chanClosed == old(chanClosed) && !evOpen && (result1 == nil ==> evNext == 2) && (result1 != nil ==> evNext == 1))
+//@   ensures-assumed [C18:lib-function] result1 == libRegoErr(profileText) && (result1 == nil ==> result0 != nil && deref(result0).Code == libRegoCode(profileText)) && stdout == old(stdout)
 
 //@ func CompileRego(regoUnit *generator.RegoUnit, eventChan *chan e.Event) (*rego.PreparedEvalQuery, error)
 //@   requires [C11:after-generation] eventChan != nil ==> (chanClosed == 0 && !evOpen && evNext == 2)
@@ -33,6 +34,7 @@ package validator
 //@   requires [C11:compiled] receiver != nil ==> (chanClosed == 0 && !evOpen && evNext == 3)
 //@   ensures [C11:stages] receiver != nil ==> (chanClosed == old(chanClosed) && (result1 == nil ==> !evOpen && evNext == 5))
 //@   ensures [C04:decode] !jsonTextValid(jsonldText) ==> result1 != nil
+//@   ensures-assumed [C18:lib-function] result0 == libNormalized(jsonldText) && result1 == libNormalizedErr(jsonldText) && stdout == old(stdout)
 
 //@ func executeValidation(eventChan *chan e.Event, err error, compiledRego rego.PreparedEvalQuery, normalizedInput any) (*rego.ResultSet, error)
 //@   requires [C11:normalized] eventChan != nil ==> (chanClosed == 0 && !evOpen && evNext == 5)
@@ -57,8 +59,12 @@ package validator
 //@   requires [C11:fresh] eventChan != nil ==> (chanClosed == 0 && !evOpen && evNext == 0)
 //@   ensures [C11:closed-once] eventChan != nil ==> chanClosed == old(chanClosed) + 1
 //@   ensures [C04:no-verdict] !jsonTextValid(jsonldText) ==> (result1 != nil && result0 == "")
+//@   ensures-assumed [C18:lib-function] result0 == libReport(profileText, jsonldText) && result1 == libReportErr(profileText, jsonldText) && stdout == old(stdout)
 
 //@ func ValidateCompiled(compiledRegoPtr *rego.PreparedEvalQuery, jsonldText string, debug bool, eventChan *chan e.Event) (string, error)
 //@   requires [C11:compiled] eventChan != nil ==> (chanClosed == 0 && !evOpen && evNext == 3)
 //@   ensures [C11:closed-once] eventChan != nil ==> chanClosed == old(chanClosed) + 1
 //@   ensures [C04:no-verdict] !jsonTextValid(jsonldText) ==> (result1 != nil && result0 == "")
+
+//@ func Encode(data any) string
+//@   ensures-assumed [C18:lib-function] result == libEncode(data)
